@@ -169,7 +169,9 @@ class Vector(MutableSequence[TScalar]):
     @override
     def __setitem__(self, index: int | slice, value: TScalar | Iterable[TScalar]) -> None:
         """Set value(s) at the specified location."""
-        if isinstance(index, int):
+        if not isinstance(index, slice):
+            # Any non-slice index (int, bool, numpy integer, object with __index__) addresses one
+            # element, exactly as for a list; list.__setitem__ rejects other index types.
             if isinstance(value, Iterable) and not isinstance(value, str):
                 raise TypeError("You cannot assign an Iterable to a vector index.")
             elif not isinstance(value, self._value_type):
